@@ -578,6 +578,23 @@ example :
     st.pol.map (·.minAvail) = some 2 ∧ st.pol.map (·.archiveMin) = some 2 ∧ st.pol.map (·.keys.length) = some 2 ∧
     st.archive.length = 3 := by decide
 
+/-! ### failing commits -/
+
+/-- **A request whose Commit fails leaves no trace**: a history in which some requests' commits fail ends in exactly
+the state of the history without those requests — so every theorem above about `run` (round trips, version windows,
+old versions under rotation) holds for histories with failed commits, about the requests that succeeded. -/
+theorem failed_commits_leave_no_trace (st : St) (l : List (Bool × Op)) :
+    runCF st l = run st ((l.filter (fun x => !x.1)).map (·.2)) := by
+  induction l generalizing st with
+  | nil => rfl
+  | cons x r ih =>
+    obtain ⟨f, o⟩ := x
+    cases f
+    · simp only [runCF, stepCF, List.filter, Bool.not_false, List.map, run]
+      exact ih _
+    · simp only [runCF, stepCF, List.filter, Bool.not_true]
+      exact ih _
+
 /-! ### key rings written by older code: convergent scheme per key version -/
 
 /-- **Whatever encrypt accepts, decrypt accepts**: for every policy-level and per-key convergent scheme version, the
